@@ -47,7 +47,16 @@ def size(rng, big=True):
     return rng.choice([100000, 200000, 300000])
 
 
-ACTS = ["send", "shutdown", "forceClose", "forceCloseDelay", "stopRead", "startRead"]
+ACTS = ["send", "shutdown", "forceClose", "forceCloseDelay", "stopRead", "startRead", "setwc", "sethwm"]
+MARKS = [0, 1, 10, 100, 1000, 4096, 65536, 64 << 20]
+LOOP_ONLY = ("setwc", "sethwm")   # plain member assignments in muduo: made on the loop thread (or inside a callback) only
+
+
+def gen_set(rng):
+    """install another write-complete / high-water callback (identity 0 = none), the latter with a new mark"""
+    if rng.random() < 0.5:
+        return "setwc %d" % rng.choice([0, 1, 2, 2, 3])
+    return "sethwm %d %d" % (rng.choice([0, 1, 2, 2, 3]), rng.choice(MARKS))
 
 
 def gen_act(rng, weights=None):
@@ -60,9 +69,86 @@ def gen_act(rng, weights=None):
         return "forceClose"
     if k < 0.78:
         return "forceCloseDelay %d" % rng.choice([0, 1, 1000, 50000, 2000000])
-    if k < 0.89:
+    if k < 0.86:
         return "stopRead"
-    return "startRead"
+    if k < 0.94:
+        return "startRead"
+    return gen_set(rng)
+
+
+def hook_act(rng):
+    """what a write-complete / high-water callback typically does: send a (small) control block, close, throttle,
+    re-arm or clear itself"""
+    k = rng.random()
+    if k < 0.5:
+        return "send g:%d:%d %s" % (rng.randrange(1 << 30), rng.choice([1, 2, 7, 16, 100, 1000]), rng.choice(["piece", "ptr", "buf"]))
+    if k < 0.62:
+        return "shutdown"
+    if k < 0.74:
+        return "forceClose"
+    if k < 0.80:
+        return "forceCloseDelay %d" % rng.choice([0, 1000])
+    if k < 0.88:
+        return rng.choice(["stopRead", "startRead"])
+    return gen_set(rng)
+
+
+def crossing_block(rng, mark, foreign=True):
+    """A send that raises the backlog from below `mark` to at least `mark` while the kernel takes only the head of
+    the block (relative short write), optionally on top of a backlog that is already there, with a callback script on
+    the high-water callback (the point of the block: whatever the callback does must land AFTER the block that is
+    being queued), then the iterations that deliver the notification and drain."""
+    lines = ["hook hwm " + hook_act(rng)]
+    if rng.random() < 0.35:
+        lines.append("hook wc " + hook_act(rng))
+    backlog = 0
+    if mark > 1 and rng.random() < 0.4:
+        backlog = rng.choice([1, mark // 2, mark - 1])
+        lines += ["script write EAGAIN", "act L send g:%d:%d piece" % (rng.randrange(1 << 30), backlog)]
+    need = mark - backlog
+    rest = need + rng.choice([0, 0, 1, 5, 100])
+    who = "F" if (foreign and rng.random() < 0.25) else "L"
+    if backlog and who == "L":
+        lines.append("act L send g:%d:%d %s" % (rng.randrange(1 << 30), rest, rng.choice(["piece", "ptr", "buf"])))
+    else:
+        head = rng.choice([1, 3, 7, 100, 1000])
+        if who == "F" and backlog:
+            lines.append("script write 0")          # the backlog does not move when the loop finds the socket writable
+        lines.append("script write -%d" % rest)      # the kernel takes all but `rest` bytes of the request
+        lines.append("act %s send g:%d:%d %s" % (who, rng.randrange(1 << 30), head + rest, rng.choice(["piece", "ptr", "buf"])))
+    if rng.random() < 0.3:
+        lines.append("act L send g:%d:%d piece" % (rng.randrange(1 << 30), rng.choice([1, 5, 100])))
+    return lines + ["iter"] * rng.choice([1, 2, 3])
+
+
+def rebind_block(rng, mark):
+    """A notification is scheduled (a send the kernel takes whole / a backlog that drains / a crossing of the mark),
+    then ANOTHER callback (or none) is installed before the loop delivers it: the callback that was installed when
+    the notification was scheduled is the one that must run."""
+    lines = []
+    r = rng.random()
+    if r < 0.4:
+        # write-complete by a send taken whole (once or twice), then the slot is re-assigned
+        for _ in range(rng.choice([1, 1, 2])):
+            lines += ["script write full", "act L send g:%d:%d piece" % (rng.randrange(1 << 30), rng.choice([1, 16, 100, 1000]))]
+        lines.append("act L setwc %d" % rng.choice([0, 2, 2, 3]))
+    elif r < 0.6:
+        # the callback clears / replaces its own slot while a second notification is already queued
+        lines.append("hook wc setwc %d" % rng.choice([0, 0, 2]))
+        for _ in range(2):
+            lines += ["script write full", "act L send g:%d:%d piece" % (rng.randrange(1 << 30), rng.choice([1, 16, 100]))]
+    elif r < 0.8:
+        # write-complete by a drain
+        n = rng.choice([10, 100, 1000])
+        lines += ["script write -%d" % rng.choice([1, 5, 9]), "act L send g:%d:%d piece" % (rng.randrange(1 << 30), n), "iter",
+                  "act L setwc %d" % rng.choice([0, 2, 3])]
+    else:
+        # high-water crossing, then callback and mark are replaced (the usual "raise the mark" idiom)
+        m = mark if 0 < mark <= 65536 else 100
+        lines += ["sethwm-placeholder", "script write EAGAIN", "act L send g:%d:%d piece" % (rng.randrange(1 << 30), m + rng.choice([0, 1, 50])),
+                  "act L sethwm %d %d" % (rng.choice([0, 2, 2, 3]), rng.choice([m * 2, 64 << 20, 1, m]))]
+        lines[0] = "act L sethwm 1 %d" % m
+    return lines + ["iter"] * rng.choice([1, 2])
 
 
 def write_script(rng):
@@ -97,24 +183,42 @@ def read_script(rng):
     return "script readv " + " ".join(toks)
 
 
-def random_case(rng, maxlen=40, faults=True, foreign=True, closes=True, profile="mixed"):
+def random_case(rng, maxlen=40, faults=True, foreign=True, closes=True, profile="mixed", crossing=0.22, rebind=0.12, hookfree=0.0):
     """one history: header ops, then a random mix; mostly-valid (the connection is usually
-    established first and kept up for a while)"""
-    mark = rng.choice([0, 1, 10, 100, 1000, 4096, 65536, 64 << 20])
-    lines = ["config %d %d %d" % (1 if rng.random() < 0.85 else 0, 1 if rng.random() < 0.85 else 0, mark)]
+    established first and kept up for a while).  `crossing` / `rebind`: share of the histories that contain a
+    `crossing_block` / `rebind_block` at a random position; `hookfree`: share of the histories without callback
+    scripts (the exact backlog replay of C13's oracle covers those in full)."""
+    scenario = rng.random()
+    want_cross = scenario < crossing
+    want_rebind = crossing <= scenario < crossing + rebind
+    no_hooks = (not want_cross) and rng.random() < hookfree
+    mark = rng.choice([1, 10, 100, 1000, 4096]) if want_cross else rng.choice(MARKS)
+    both = want_cross or want_rebind
+    lines = ["config %d %d %d" % (1 if (both or rng.random() < 0.85) else 0, 1 if (both or rng.random() < 0.85) else 0, mark)]
     if rng.random() < 0.15:
         lines.append("setRetrieve %d" % rng.choice([0, 1, 5, 100]))
-    for _ in range(rng.randrange(0, 3)):
+    for _ in range(0 if no_hooks else rng.randrange(0, 3)):
         lines.append("hook %s %s" % (rng.choice(["up", "msg", "wc", "hwm", "down"]), gen_act(rng)))
     lines.append("establish")
     n = rng.randrange(3, maxlen)
-    for _ in range(n):
+    if both:
+        n = rng.randrange(0, max(1, maxlen // 2))
+    block_at = rng.randrange(0, n + 1) if both else -1
+    for j in range(n + 1):
+        if j == block_at:
+            lines += crossing_block(rng, mark, foreign) if want_cross else rebind_block(rng, mark)
+        if j == n:
+            break
         k = rng.random()
+        if no_hooks and 0.60 <= k < 0.64:
+            k = 0.9
         if k < 0.30:
             who = "F" if (foreign and rng.random() < 0.35) else "L"
             a = gen_act(rng)
             if not closes and a.split()[0] in ("forceClose", "forceCloseDelay", "shutdown") and rng.random() < 0.8:
                 a = "send g:%d:%d piece" % (rng.randrange(1 << 30), size(rng))
+            if a.split()[0] in LOOP_ONLY:
+                who = "L"
             lines.append("act %s %s" % (who, a))
         elif k < 0.42 and faults:
             lines.append(write_script(rng))
